@@ -993,6 +993,9 @@ func (r *Runner) attribute(sp *Space, lvl int, res workerResult) bool {
 
 // raceSites extracts the innermost module functions of the two accesses of
 // the first race report in the output.
+// RaceSites is raceSites for harnesses that run the code under test in a child process of their own.
+func RaceSites(dump string) (string, string, bool) { return raceSites(dump) }
+
 func raceSites(dump string) (string, string, bool) {
 	i := strings.Index(dump, "WARNING: DATA RACE")
 	if i < 0 {
